@@ -37,7 +37,7 @@ CFG_NOTE = ("Trusted base: Go toolchain; the small reference functions in the ha
 CHECKS.update({
  "C03": dict(engine="cfgmc-c03", cat="model_checking", ref="§2.4, §3 C03",
    technique="exhaustive enumeration of task graphs x request lists x map-iteration orders (controlled-iteration overlay of the dag package) executed on the real SpokFile.Run, against a closure/cycle reference",
-   text="Every digraph on 1-3 vertices incl. self-loops (thorough: also all 65536 on 4 vertices, each with one failing task for <=3) x every request list x every iteration order the topological sort may meet (explicit choice points instead of Go's map randomisation), plus undefined names at depth 1/2, duplicate definitions, variables and files spelled like tasks, task names that are prefixes of one another and families up to 8 vertices. The run must be exactly the closure, once each, dependencies first, and bad graphs must be errors that run nothing.",
+   text="Every digraph on 1-3 vertices incl. self-loops (thorough: also all 65536 on 4 vertices, each with one failing task for <=3) x every request list x every iteration order the topological sort may meet (explicit choice points instead of Go's map randomisation), plus undefined names at depth 1/2, duplicate definitions, variables and files spelled like tasks, task names that are prefixes of one another or read like commands (clean, help, default, ...) and families up to 8 vertices; a command-line part requests tasks named like sub-commands and flags through the built binary. The run must be exactly the closure, once each, dependencies first, and bad graphs must be errors that run nothing.",
    note=CFG_NOTE + " Map iteration order is modelled as an arbitrary permutation chosen by the explorer (superset of what the Go runtime does)."),
  "C05": dict(engine="cfgmc-c05", cat="model_checking", ref="§2.4, §3 C05",
    technique="exhaustive enumeration of directory trees (all subsets of a path pool) x glob patterns, expanded by the real code via file.New/Run/Globs, against a reference matcher over a full walk",
@@ -45,7 +45,7 @@ CHECKS.update({
    note=CFG_NOTE + " doublestar.Match is taken as the meaning of a pattern; patterns where Match and GlobWalk disagree inside the library (*/**) are left out."),
  "C17": dict(engine="cfgmc-c17", cat="model_checking", ref="§2.4, §3 C17",
    technique="exhaustive enumeration of directory chains x start x stop executed on the real file.Find, with a deterministic non-termination detector",
-   text="All 12^4 chains of depth 4 x 4 start levels x 5 stops (each level, unrelated directory) = 414720 Find calls (thorough: doubled with chain names sorting after 'spokfile'); a third visit to the same directory is a non-termination verdict. For start at/below stop the answer is fully determined; otherwise termination and nearest-at-or-above-start are required.",
+   text="All 12^4 chains of depth 4 x 4 start levels x 5 stops (each level, unrelated directory) Find calls (also with directories named '..d'; start and stop each in five spellings - clean, trailing slash, /., doubled separator, sub/.. - for the chains of bare levels, thorough: all chains and names sorting after 'spokfile'); through the binary: $HOME/$PWD spellings, links, a link to its own directory, unlistable directories; a third visit to the same directory is a non-termination verdict. For start at/below stop the answer is fully determined; otherwise termination and nearest-at-or-above-start are required.",
    note=CFG_NOTE),
 })
 
@@ -54,7 +54,7 @@ HIST_NOTE = ("Trusted base: Go toolchain; the reference model (last successful i
 CHECKS.update({
  "C01": dict(engine="histmc", cat="model_checking", ref="§2.1, §3 C01",
    technique="explicit-state BFS to closure over (disk, reference-model) states, each transition executed by the real code, branching over every topological-sort iteration order; skip-soundness invariant on every run transition",
-   text="For each of 16 programs (literal/glob/task dependencies, shared files, file-less tasks, a file listed twice, a deletable dependency, task commands that rewrite or generate other tasks' inputs; thorough: plus every 1-task program and every 2-task program over {a.txt, *.src, sub/*.src}) the full state graph under the op alphabet {edit/create/revert/delete files, run any request list with/without force with any failing set, run with an unwritable cache file, remove cache} is explored to closure, i.e. all finite histories; every run op is also replayed through the built binary. Every reported skip must match the model's last success.",
+   text="For each of 26 programs (literal/glob/task dependencies, shared files, file-less tasks, a file listed twice, a deletable dependency, task commands that rewrite or generate other tasks' inputs, declared outputs, symbolic links as inputs, literal names with pattern characters, task names like 'version', a task without commands, a spokfile that is edited between runs incl. dependency lists; thorough: plus every 1-task program and every 2-task program over {a.txt, *.src, sub/*.src}) the full state graph under the op alphabet {edit/create/revert/delete files, run any request list with/without force with any failing set, run with an unwritable cache file, remove cache} is explored to closure, i.e. all finite histories; every run op is also replayed through the built binary. Every reported skip must match the model's last success.",
    note=HIST_NOTE),
  "C02": dict(engine="histmc", cat="model_checking", ref="§2.1, §3 C02",
    technique="same explicit-state closure as C01 with the converse oracle (unchanged since last success => skipped, file-less tasks always run)",
@@ -75,7 +75,7 @@ CHECKS.update({
    note=SCHED_NOTE),
  "C18": dict(engine="schedmc", cat="model_checking", ref="§2.2, §3 C18",
    technique="stateless exploration of every interleaving and every single injected open/read fault of the real hash code under a controlled scheduler with deadlock/leak/livelock/panic detection",
-   text="Lists of <=3 entries of kinds {regular, directory, missing, dangling link, unreadable} in every position x NumCPU in {1,2,3} under every schedule within preemption bound 2 (1 for length 3; thorough 2 and unbounded for sizes 0..4 x NumCPU 1..4), plus <=1 (thorough 2) injected fault (open fails, copy fails mid-read): no deadlock, livelock, panic in any goroutine or goroutine left blocked; digest xor error; error whenever an entry could not be read.",
+   text="Lists of <=3 entries of kinds {regular, directory, missing, dangling link, unreadable} in every position x NumCPU in {1,2,3} under every schedule within preemption bound 2 (1 for length 3; thorough 2 and unbounded for sizes 0..4 x NumCPU 1..4), plus <=1 (thorough 2) injected fault (open fails as vanished or as out-of-descriptors, copy fails mid-read, a 16 MiB file shrinks under a memory mapping): no deadlock, livelock, panic in any goroutine or goroutine left blocked; digest xor error; error whenever an entry could not be read.",
    note=SCHED_NOTE + " Memory-level data races and 10^4-element lists are outside exhaustive reach (stated in DESIGN.md §6)."),
 })
 
